@@ -893,6 +893,60 @@ class LinkedGen:
             out.append("observe")
         return out
 
+    def mixed_refusal_op(self, rng, sim):
+        """one two-container operation of a mixed session with `fail=k` (k up to the number of node allocations + 1): zit_add,
+        add_all, add_all_at in either direction, or a builder.  Not splice (known finding across triples).  The shadow is
+        updated as if the operation had been refused entirely when k can hit (it is only a generation heuristic)."""
+        live = sim.live()
+        a, b = rng.sample(live, 2)
+        la, lb = sim.s[a], sim.s[b]
+        oa = f" o={a}" if a else ""
+        c = rng.choice(["zit_add", "zit_add", "add_all", "add_all", "add_all_at", "add_all_at", "mk"])
+        out = []
+        if c == "zit_add":
+            while len(la) < 1:
+                v = val(rng); la.append(v); out.append(f"add {v}{oa}")
+            while len(lb) < 1:
+                v = val(rng); lb.append(v); out.append(f"add {v} o={b}" if b else f"add {v}")
+            # the schedule counts configured-allocator calls only: with a libc-built first list the SECOND node (the first
+            # configured call) is refused by fail=1
+            confs = [x for x in (a, b) if sim.ctor_for(x) == "new"]
+            k = rng.choice([1, 1, 2, 3]) if len(confs) == 2 else rng.choice([1, 1, 1, 2])
+            v, w = val(rng), val(rng)
+            out += [f"zit_new o={a} o2={b}", "zit_next", f"zit_add {v} {w} fail={k}"]
+            if k > len(confs):
+                la.insert(1, v); lb.insert(1, w)
+            if rng.random() < 0.5:
+                out.append(f"zit_add {w} {v}")
+                la.insert(1, w); lb.insert(1, v)
+            return out
+        if c in ("add_all", "add_all_at"):
+            while len(lb) < rng.choice([1, 2, 3]):
+                v = val(rng); lb.append(v); out.append(f"add {v} o={b}" if b else f"add {v}")
+            k = rng.randint(1, len(lb) + 1)
+            granted = k > len(lb) or sim.ctor_for(a) != "new"
+            if c == "add_all":
+                out.append(f"add_all from={b} fail={k}{oa}")
+                if granted:
+                    la.extend(lb)
+            else:
+                n = len(la)
+                i = rng.choice([0, n // 2, max(n - 1, 0)])
+                out.append(f"add_all_at from={b} idx={i} fail={k}{oa}")
+                if granted and (i <= n if self.dbl else i < n):
+                    la[i:i] = list(lb)
+            return out
+        to = sim.free_slot()
+        if to is None or not la:
+            return [f"add_all from={b} fail=1{oa}"]
+        k = rng.randint(1, len(la) + 2)
+        kind = rng.choice(["mk_copy_shallow", "mk_copy_deep", "mk_filter", f"mk_sub b=0 e={len(la) - 1}"])
+        out.append(f"{kind} to={to} fail={k}{oa}")
+        res = {"mk_copy_shallow": list(la), "mk_copy_deep": [x + 1000 for x in la], "mk_filter": [x for x in la if x % 2 == 0]}.get(kind, list(la))
+        if k > len(res) + 1 or sim.ctor_for(a) != "new":
+            sim.s[to] = res
+        return out
+
     def one_history(self, rng, tier, focus):
         sim = Sim()
         sim.s[0] = []
@@ -905,11 +959,17 @@ class LinkedGen:
         # That is recorded as a KNOWN FINDING, not silently excluded: witness corpus/{list,slist}/
         # defect_splice_two_triples.ops (L2 `libc-free-of-conf-block`); in Lean it is the hypothesis
         # `ListHistory.Compat` / `SpliceOk` of every history theorem (see the header of Properties/C04.lean).
-        # No `fail=` in histories that contain a default-constructed list (libc cannot be refused).
+        # `fail=k` in mixed histories: the refusal schedule counts only calls through the configured allocator, so `fail=k` is
+        # meaningful whenever a conf-built list allocates.  Mixed histories of the foci fault / derived / all / refuse carry it on
+        # the two-container operations (zit_add, add_all, add_all_at, mk_*): which list's mem_free releases the nodes built
+        # before the refusal is visible only when the two lists are on different triples (`mixed_refusal_op`).
         r0 = rng.random()
-        if focus in ("all", "refuse") and r0 < 0.10:
-            sim.mix = r0 < 0.07
+        if focus in ("all", "refuse") and r0 < 0.14:
+            sim.mix = r0 < 0.11
             sim.ctor = "new_default" if (not sim.mix or rng.random() < 0.5) else "new"
+        elif focus in ("fault", "derived") and r0 < 0.22:
+            sim.mix = True
+            sim.ctor = rng.choice(["new_default", "new"])
         elif focus == "iter" and r0 < 0.04:
             sim.mix = True
             sim.ctor = rng.choice(["new_default", "new"])
@@ -944,6 +1004,9 @@ class LinkedGen:
             k = rng.choice(live) if rng.random() < 0.3 else live[0]
             r = rng.random()
             new = []
+            if sim.mix and focus in ("fault", "derived", "all", "refuse") and len(live) > 1 and rng.random() < 0.22:
+                ops.extend(self.mixed_refusal_op(rng, sim))
+                continue
             if (focus == "iter" or allf) and r < (0.3 if focus == "iter" else 0.12):
                 new = self.zip_program(rng, sim) if (rng.random() < (0.6 if sim.mix else 0.25) and len(live) > 1) else self.iter_program(rng, sim, k)
             elif (focus == "derived" or allf) and r < (0.35 if focus == "derived" else 0.2):
@@ -1186,12 +1249,48 @@ class LinkedGen:
                         out.append(build(vals) + ["sort_in_place cmp=key", "add 5", "remove_first", "destroy"])
                     if n <= 5:
                         out.append(build(vals) + ["sort", "add 5", "remove_last", "destroy"])
+        if focus in ("fault", "derived") or allf:
+            out += self.mixed_refusal_scope()
         if focus == "fault" or allf:
             out.append(["new fail=1", "destroy"])
         # NULL out-pointers: every fourth history passes NULL wherever an out-pointer is optional
         out = [[op + " noout=1" if op.split()[0] in NOOUT_OPS else op for op in h] if i % 4 == 1 else h for i, h in enumerate(out)]
         srng = random.Random(20240)
         out = [self.sparsify(srng, h) if i % 3 == 2 else h for i, h in enumerate(out)]
+        return out
+
+    def mixed_refusal_scope(self):
+        """for every ordered pair of constructors (configured / C library) and every two-container operation: the operation with
+        `fail=k` for k = 1 .. (allocations it makes) + 1, then both lists are observed and destroyed (ledger balance).  The
+        schedule counts configured-allocator calls only, so in a mixed pair `fail=k` refuses the k-th allocation of the
+        conf-built list: which list's mem_free releases what was built before the refusal shows only across triples."""
+        out = []
+        for c0 in ("new", "new_default"):
+            for c1 in ("new", "new_default"):
+                for n0, n1 in ((1, 1), (2, 3), (3, 2)):
+                    base = [c0] + [f"add {i + 1}" for i in range(n0)] + [f"{c1} o=1"] + [f"add {i + 11} o=1" for i in range(n1)]
+                    tail = ["size", "size o=1", "get_last", "get_last o=1", "add 9", "add 19 o=1", "remove_first", "remove_first o=1", "destroy"]
+                    progs = []
+                    for k in range(1, 4):
+                        progs.append(["zit_new o=0 o2=1", "zit_next", f"zit_add 7 8 fail={k}"])
+                        progs.append(["zit_new o=1 o2=0", "zit_next", f"zit_add 7 8 fail={k}"])
+                        progs.append(["zit_new o=0 o2=1", "zit_next", "zit_next", f"zit_add 7 8 fail={k}", "zit_add 5 6"])
+                    for k in range(1, n1 + 2):
+                        progs.append([f"add_all from=1 fail={k}"])
+                        for i in sorted(set([0, n0 // 2, n0 - 1] + ([n0] if self.dbl else []))):
+                            progs.append([f"add_all_at from=1 idx={i} fail={k}"])
+                    for k in range(1, n0 + 2):
+                        progs.append([f"add_all from=0 o=1 fail={k}"])
+                        progs.append([f"add_all_at from=0 idx=0 o=1 fail={k}"])
+                    for k in range(1, max(n0, n1) + 3):
+                        for o in ("", " o=1"):
+                            n = n1 if o else n0
+                            progs.append([f"mk_copy_shallow to=2{o} fail={k}", "size o=2", "add 4 o=2"])
+                            progs.append([f"mk_copy_deep to=2{o} fail={k}", "size o=2"])
+                            progs.append([f"mk_filter to=2{o} fail={k}", "size o=2"])
+                            progs.append([f"mk_sub b=0 e={n - 1} to=2{o} fail={k}", "size o=2"])
+                    for pr in progs:
+                        out.append(base + pr + tail)
         return out
 
     def fault_seeds(self, tier):
@@ -1205,6 +1304,14 @@ class LinkedGen:
               A + ["zit_new o=0 o2=1", "zit_next", "zit_add 4 5", "zit_next", "zit_next", "zit_next", "zit_add 6 7", "zit_add 8 9",
                    "remove_last", "add_last 7", "remove_last o=1", "destroy"],
               ["new", "new o=1", "add 7 o=1", "add 8 o=1", "add_all from=1", "destroy"]]
+        for c0, c1 in (("new_default", "new"), ("new", "new_default")):
+            M = [c0, "add 1", "add 2", f"{c1} o=1", "add 7 o=1", "add 8 o=1", "add 9 o=1"]
+            hs += [M + ["zit_new o=0 o2=1", "zit_next", "zit_add 4 5", "zit_next", "zit_add 6 7", "destroy"],
+                   M + ["zit_new o=1 o2=0", "zit_next", "zit_add 4 5", "destroy"],
+                   M + ["add_all from=1", "add_all_at from=1 idx=1", "destroy"],
+                   M + ["add_all from=0 o=1", "add_all_at from=0 idx=0 o=1", "destroy"],
+                   M + ["mk_copy_shallow to=2", "mk_copy_deep to=3 o=1", "destroy"],
+                   M + ["mk_filter to=2 o=1", "mk_sub b=0 e=1 to=3", "destroy"]]
         if self.dbl:
             hs.append(A + ["dit_new", "dit_next", "dit_add 4", "dit_next", "dit_next", "dit_next", "dit_add 5", "dit_add 6", "remove_first", "add_first 7", "destroy"])
         return hs
